@@ -69,6 +69,11 @@ def lookupK (tab : List ((String × String) × α)) (n1 n2 : String) : Option α
   | [] => none
   | ((a, b), k) :: rest => if a == n1 && b == n2 then some k else lookupK rest n1 n2
 
+/-- checked on every run for the map the engine holds: both key orders are present with the same value
+(`read_gas_binary_parameters` stores `(gas1, gas2)` and `(gas2, gas1)`) -/
+def symmetricTab [BEq α] (tab : List ((String × String) × α)) : Bool :=
+  tab.all fun e => lookupK tab e.1.1 e.1.2 == lookupK tab e.1.2 e.1.1
+
 /-- `calc_gas_binary_parameter(name1, name2)`: `1 - k` from the map, else the hard-coded table, else 1 -/
 def binaryFactor (tab : List ((String × String) × α)) (n1 n2 : String) : α :=
   match lookupK tab n1 n2 with
